@@ -188,6 +188,26 @@ func runTruncate(c *core.Ctx, codec string) {
 		enc = "xz-multiblock"
 	}
 	comp, err := gen.Compress(enc, text)
+	// one case in three: a file made of two or three members (streams, frames) compressed on their
+	// own, cut anywhere in the text. A cut exactly between two members leaves a complete, shorter
+	// file and is not a fault; every other cut is, the first bytes of a later member included.
+	var memberStarts []int
+	if c.Idx%3 == 2 && len(text) > 8 {
+		var parts [][]byte
+		prev := 0
+		for i := 0; i < 1+c.Rng.Intn(2); i++ {
+			at := prev + 1 + c.Rng.Intn(len(text)-prev-1)
+			if at >= len(text) {
+				break
+			}
+			parts = append(parts, text[prev:at])
+			prev = at
+		}
+		parts = append(parts, text[prev:])
+		comp, memberStarts, err = gen.CompressMembers(codec, parts)
+		enc = codec + "-members"
+		c.Count("multi_member_files", 1)
+	}
 	if err != nil {
 		c.Inconclusive("cannot compress: " + err.Error())
 		return
@@ -239,13 +259,32 @@ func runTruncate(c *core.Ctx, codec string) {
 			have[k] = true
 		}
 	}
+	isStart := map[int]bool{}
+	for _, st := range memberStarts {
+		isStart[st] = true
+		for k := st - 9; k <= st+14; k++ { // the trailer of the previous member, the header of this one
+			if k >= 6 && k < len(comp) && !have[k] {
+				pts = append(pts, k)
+				have[k] = true
+			}
+		}
+	}
 	for _, k := range pts {
+		if isStart[k] {
+			continue
+		}
 		os.WriteFile(base, comp[:k], 0o644)
 		t := tg[(k+c.Idx)%len(tg)]
 		if !c.Quick() && len(comp) <= 600 {
 			// tiny files: every command on every cut
 			for _, tt := range tg {
-				checkTrunc(c, codec, class, tt, base, k, len(comp), n)
+				checkTrunc(c, codec, class, tt, base, k, len(comp), n, isStart[k-1])
+			}
+			continue
+		}
+		if isStart[k-1] || isStart[k-2] { // the first bytes of a later member: every command
+			for _, tt := range tg {
+				checkTrunc(c, codec, class, tt, base, k, len(comp), n, isStart[k-1])
 			}
 			continue
 		}
@@ -290,7 +329,7 @@ func runTruncateFlat(c *core.Ctx, codec, format string, n int, class string) {
 	}
 }
 
-func checkTrunc(c *core.Ctx, codec, class string, t target, path string, k, total, n int) {
+func checkTrunc(c *core.Ctx, codec, class string, t target, path string, k, total, n int, afterStart ...bool) {
 	res := runCmd(c, t, path)
 	c.Count("evaluations", 1)
 	c.Count("truncation_points", 1)
@@ -316,7 +355,13 @@ func checkTrunc(c *core.Ctx, codec, class string, t target, path string, k, tota
 	}
 	if res.Exit == 0 {
 		recs := bytes.Count(res.Stdout, []byte("\n>")) + bytes.Count(res.Stdout, []byte("\n@"))
-		c.Violate(fmt.Sprintf("exit0:%s:%s", codec, t.name), "the command exits 0 although its compressed input is cut short",
+		cause := fmt.Sprintf("exit0:%s:%s", codec, t.name)
+		if len(afterStart) > 0 && afterStart[0] {
+			// the file ends one byte into a later member: half a magic number
+			cause += ":later-member-magic-incomplete"
+			where = "later-member-magic"
+		}
+		c.Violate(cause, "the command exits 0 although its compressed input is cut short",
 			map[string]any{"codec": codec, "command": t.bin, "args": t.args, "stdin": t.stdin, "cut_at": k, "of": total, "records_in_file": n, "approx_records_output": recs, "where": where, "stderr": cmdx.Tail(res.Stderr, 600)})
 	}
 }
@@ -443,6 +488,59 @@ func runTruncateBig(c *core.Ctx) {
 	}
 }
 
+// runTruncateHuge: files larger than 32 MiB on disk (multi-stream files: a 3 MB member repeated),
+// damaged in their last stream - what a reader that treats big files differently (another decoder,
+// a helper process, memory mapping) must still report. xz, bzip2, zstd and gzip in turn.
+func runTruncateHuge(c *core.Ctx) {
+	codec := []string{"xz", "bzip2", "zstd", "gzip"}[c.Idx%4]
+	text := seqText(c.Rng, 36000, false) // about 3 MB
+	member, err := gen.Compress(codec, text)
+	if err != nil || len(member) == 0 {
+		c.Inconclusive("cannot compress")
+		return
+	}
+	copies := (33<<20)/len(member) + 2
+	comp := bytes.Repeat(member, copies)
+	last := len(member) * (copies - 1)
+	base := filepath.Join(c.Dir, fmt.Sprintf("huge%d.fasta%s", c.Idx, gen.CodecExt(codec)))
+	defer os.Remove(base)
+	run := func() cmdx.Res {
+		return cmdx.Run(filepath.Join(c.BinDir, "obicount"), []string{"--max-cpu", "4", base}, cmdx.Opt{Timeout: 600 * time.Second})
+	}
+	os.WriteFile(base, comp, 0o644)
+	c.Risk("obicount on a " + codec + " file of " + fmt.Sprint(len(comp)>>20) + " MiB")
+	intact := run()
+	if intact.TimedOut {
+		c.Inconclusive("watchdog on the intact huge file")
+		return
+	}
+	if intact.Exit != 0 {
+		c.Violate("intact-rejected:huge:"+codec, "the intact multi-stream file is rejected", map[string]any{"codec": codec, "bytes": len(comp), "streams": copies, "stderr": cmdx.Tail(intact.Stderr, 800)})
+		return
+	}
+	c.Sample(map[string]any{"codec": codec, "file_bytes": len(comp), "streams": copies, "records": 36000 * copies, "faults": "cut in the middle of / 5 bytes into the last stream (the file stays above 32 MiB)"})
+	for _, f := range []struct {
+		name string
+		at   int
+	}{{"mid-last-stream", last + len(member)/2}, {"5-bytes-into-last-stream", last + 5}} {
+		os.WriteFile(base, comp[:f.at], 0o644)
+		res := run()
+		c.Count("evaluations", 1)
+		c.Count("truncation_points", 1)
+		c.Key("huge/%s/%s", codec, f.name)
+		if res.TimedOut {
+			c.Inconclusive("watchdog on a truncated huge file")
+			continue
+		}
+		det := map[string]any{"codec": codec, "file_bytes": f.at, "of": len(comp), "streams": copies, "fault": f.name, "stdout": cmdx.Tail(res.Stdout, 300), "stderr": cmdx.Tail(res.Stderr, 600)}
+		if memoryFault(res) {
+			c.Violate("memory-fault:huge:"+codec, "the command dies of a memory fault on a truncated input", det)
+		} else if res.Exit == 0 {
+			c.Violate(fmt.Sprintf("exit0:%s:huge:%s", codec, f.name), "the command exits 0 although its compressed input (more than 32 MiB on disk) is cut short", det)
+		}
+	}
+}
+
 // runTruncateAsan: the stdin path decodes gzip inside C code (kseq + zlib): truncated and bit-flipped
 // gzip streams through an AddressSanitizer build of obiconvert. Oracle: the exit status as
 // elsewhere, and no sanitizer report.
@@ -513,6 +611,16 @@ func runBitflip(c *core.Ctx, codec string) {
 	fastq := c.Idx%2 == 1
 	text := seqText(c.Rng, n, fastq)
 	comp, err := gen.Compress(codec, text)
+	later := -1 // offset of the second member of a two-member file
+	if c.Idx%3 == 2 && len(text) > 8 {
+		at := 1 + c.Rng.Intn(len(text)-1)
+		var starts []int
+		comp, starts, err = gen.CompressMembers(codec, [][]byte{text[:at], text[at:]})
+		if len(starts) == 1 {
+			later = starts[0]
+			c.Count("multi_member_files", 1)
+		}
+	}
 	if err != nil {
 		c.Inconclusive("cannot compress: " + err.Error())
 		return
@@ -566,6 +674,16 @@ func runBitflip(c *core.Ctx, codec string) {
 			}
 		}
 	}
+	if later >= 0 { // the header of the second member: every bit of its first four bytes, some of the next
+		for b := later * 8; b < (later+4)*8 && b < nbits; b++ {
+			flips = append(flips, b)
+		}
+		for i := 0; i < 8; i++ {
+			if b := (later+4)*8 + c.Rng.Intn(6*8); b < nbits {
+				flips = append(flips, b)
+			}
+		}
+	}
 	for fi, b := range flips {
 		mut := append([]byte{}, comp...)
 		mut[b/8] ^= 1 << uint(b%8)
@@ -578,9 +696,14 @@ func runBitflip(c *core.Ctx, codec string) {
 		} else if b/8 >= len(comp)-32 {
 			region = "trailer"
 		}
+		if later >= 0 && b/8 >= later && b/8 < later+2 {
+			region = "later-member-magic"
+		} else if later >= 0 && b/8 >= later+2 && b/8 < later+10 {
+			region = "later-member-header"
+		}
 		for ti, t := range tgs {
-			structural := codec == "xz" && b/8 == 12                                 // size byte of the first block header: every target, always
-			if !structural && ti != fi%len(tgs) && (c.Quick() || region == "body") { // every target on the header and trailer bits in the thorough tier
+			structural := (codec == "xz" && b/8 == 12) || strings.HasPrefix(region, "later-member") // size byte of the first block header, header of a later member: every target, always
+			if !structural && ti != fi%len(tgs) && (c.Quick() || region == "body") {                // every target on the header and trailer bits in the thorough tier
 				continue
 			}
 			res := runCmd(c, t, base)
@@ -798,12 +921,13 @@ func init() {
 	}
 	subs = append(subs, core.Sub{Name: "gzip-stdin-asan", N: core.Const(4, 24), TimeoutS: 3000, Run: runTruncateAsan})
 	subs = append(subs, core.Sub{Name: "truncate-big", N: core.Const(16, 48), TimeoutS: 3000, Run: runTruncateBig})
+	subs = append(subs, core.Sub{Name: "truncate-huge", N: core.Const(2, 4), Shard: 1, TimeoutS: 3000, Run: runTruncateHuge})
 	subs = append(subs, core.Sub{Name: "readerr", N: core.Const(32, 128), Run: runReadErr})
 	core.Register(&core.Property{
 		ID:    "C17",
 		Level: "fault_enumeration",
 		Rule: "fault points on compressed FASTA/FASTQ files (gzip, bzip2, xz, zstd; one member/frame each; 1..3000 records): truncation at byte k (every k from 6 for files up to 40 bytes in quick / 4 KiB in thorough, else the first and last 12 offsets plus 40/200 sampled ones), single bit flips (every bit up to 1 KiB in thorough, sampled otherwise), through obiconvert / obicount / obigrep with a file argument and, for gzip, obiconvert reading stdin; plus the four Read* functions over a reader returning a non-EOF error after k bytes (helper process). Oracle: exit status (truncation, read error => non-zero; bit flip => non-zero or output identical to the intact run). " +
-			"Added later: decoder-error oracle for bit flips, forced-format and two-file targets (after a plain file and after an intact file of the same codec), damaged mate file, compressed EMBL/GenBank, read errors delivered alone / with data / once only, files of 2-3 MiB and long reads, gzip/zstd streams flushed between records and cut at the flush points, the xz block-header-size bits on every target, AddressSanitizer runs of the stdin (C) reader; a process killed by a memory fault is a violation. " +
+			"Added later: decoder-error oracle for bit flips, forced-format and two-file targets (after a plain file and after an intact file of the same codec), damaged mate file, compressed EMBL/GenBank, read errors delivered alone / with data / once only, files of 2-3 MiB and long reads, gzip/zstd streams flushed between records and cut at the flush points, the xz block-header-size bits on every target, AddressSanitizer runs of the stdin (C) reader; a process killed by a memory fault is a violation. Files made of several members / streams / frames (cuts and bit flips in the header of a later member; a cut exactly between two members is not a fault), truncate-huge: multi-stream files of more than 32 MiB damaged in their last stream. " +
 			"distinct_nontrivial = distinct (fault kind, codec or format, command+transport, size class, region header/body/trailer) classes exercised",
 		Assume:        []string{"each compressed file is a single member/frame, so every proper prefix of at least 6 bytes is an invalid stream", "stdin is only exercised with gzip (the stdin reader is zlib based)"},
 		Subs:          subs,
